@@ -55,4 +55,14 @@ static void printConstraints(const topology::TopologyConstraints &t, const topol
     }
     fflush(stdout);
 }
+
+//   F <dim> <finalPosition of variable 0> <1> ...   what the VPSC projection inside the last solve() returned (Node::finalPos());
+//                                               printed after the KD block of a `solve` state: with the constraints and rectangles of
+//                                               the previous state it determines minTAlpha, the constraint that is satisfied and the move
+static void printFinalPositions(const vpsc::Variables &vs, int dim) {
+    printf("F %d", dim);
+    for (size_t i = 0; i < vs.size(); ++i) printf(" %s", hx(vs[i]->finalPosition).c_str());
+    printf("\n");
+    fflush(stdout);
+}
 #endif
